@@ -142,6 +142,48 @@ pub fn run(ctx: &Ctx, rep: &Report) {
             }
         }
     }
+    // a complete valid frame followed by padding / followed by another frame / cut short: only the exact length is a message
+    {
+        let shorts: Vec<Vec<u8>> = vec![
+            df11(5, 0x4840d6, 0),
+            df11(5, 0x4840d6, 5),
+            df4_5(4, 0, 0, 0, ac13_q(35000), 0x4840d6),
+            df4_5(5, 0, 0, 0, id13(1, 2, 3, 4), 0x4840d6),
+            df0(0, 0, 3, 3, ac13_q(12000), 0x4840d6),
+        ];
+        let longs: Vec<Vec<u8>> = vec![
+            valid.clone(),
+            df18(2, 0x4840d6, &me_bds05(11, 0, 0, ac12_q(35000), 0, 0, 93000, 51372), 0),
+            df16(0, 3, 3, ac13_q(12000), &[0x30, 0, 0, 0, 0, 0, 0], 0x4840d6),
+            df20_21(20, 0, 0, 0, ac13_q(35000), &fspace::exemplar("bds50"), 0x4840d6),
+            df20_21(21, 0, 0, 0, id13(1, 2, 3, 4), &fspace::exemplar("bds60"), 0x4840d6),
+            df24(0, 1, &[7u8; 10], 0x4840d6),
+        ];
+        let mut m = 0u64;
+        for base in shorts.iter().chain(longs.iter()) {
+            for len in 0..=32usize {
+                for pad in 0..4 {
+                    let mut f: Vec<u8> = base.iter().cloned().take(len).collect();
+                    while f.len() < len {
+                        let i = f.len();
+                        f.push(match pad {
+                            0 => 0x00,
+                            1 => 0xff,
+                            2 => base[i % base.len()],
+                            _ => longs[0][i % 14],
+                        });
+                    }
+                    let r = fspace::decode(&f);
+                    m += 1;
+                    if judge_bytes(rep, "length:embedded", &f, &r) == "accepted" {
+                        acc += 1;
+                    }
+                }
+            }
+        }
+        n += m;
+        rep.part("length law: valid frames padded, concatenated and cut short", m, json!({}));
+    }
     rep.part("length law", n, json!({"accepted": acc}));
     // (a') order independence: a result must not depend on which frames were decoded before it
     // (hidden state between calls): a fixed list is decoded forwards, backwards and interleaved with
@@ -189,6 +231,72 @@ pub fn run(ctx: &Ctx, rep: &Report) {
         n += 3 * list.len() as u64;
         rep.part("order independence", 3 * list.len() as u64, json!({"frames": list.len(), "different": diff}));
     }
+    // (a'') sequences of two decodes over related inputs: a frame and each of its single-bit neighbours, in
+    // both orders; the second result must equal what a fresh thread (fresh thread-local state) gives for it
+    {
+        let mut bases: Vec<Vec<u8>> = Vec::new();
+        for name in fspace::REGISTERS {
+            bases.push(df20_21(20, 0, 0, 0, ac13_q(35000), &fspace::exemplar(name), 0x4840d6));
+            bases.push(df20_21(21, 0, 0, 0, id13(1, 2, 3, 4), &fspace::exemplar(name), 0x4840d6));
+        }
+        bases.push(df20_21(20, 0, 0, 0, 0x0b5a, &fspace::exemplar("bds05"), 0x4840d6));
+        for me in [me_bds08(4, 0, &cs_codes("KLM1023")), me_bds05(11, 0, 0, ac12_q(35000), 0, 0, 93000, 51372), me_bds05(20, 0, 0, 0x081, 0, 1, 93000, 51372), me_bds06(7, 20, 1, 64, 0, 1, 1000, 2000), me_bds09_gs(1, 0, 0, 0, 0, 100, 1, 200, 0, 0, 10, 0, 5), me_bds09_as(3, 0, 0, 0, 1, 512, 1, 300, 0, 1, 10, 0, 5), me_bds61(1, 0, id13(7, 7, 0, 0)), me_bds62(1, 0, 1000, 300, 1, 100, 9, 1, 3, 0), me_bds65(0, 0, 0, 2, 0, 9, 0), me_bds65(1, 0, 0, 1, 0, 9, 0)] {
+            bases.push(df17(5, 0x4840d6, &me, 0));
+            bases.push(df18(2, 0x4840d6, &me, 0));
+        }
+        bases.push(df11(5, 0x4840d6, 0));
+        bases.push(df0(0, 0, 3, 3, ac13_q(12000), 0x4840d6));
+        bases.push(df4_5(4, 0, 0, 0, ac13_q(35000), 0x4840d6));
+        bases.push(df4_5(4, 0, 0, 0, 0x0b5a, 0x4840d6));
+        bases.push(df4_5(5, 0, 0, 0, id13(1, 2, 3, 4), 0x4840d6));
+        bases.push(df16(0, 3, 3, ac13_q(12000), &[0x30, 0, 0, 0, 0, 0, 0], 0x4840d6));
+        let render = |f: &[u8]| -> String {
+            match fspace::decode(f) {
+                Ok(Ok(m)) => format!("{m:?}"),
+                Ok(Err(e)) => format!("Err({e})"),
+                Err(p) => format!("panic({p})"),
+            }
+        };
+        let fresh = |f: &Vec<u8>| -> String {
+            let g = f.clone();
+            std::thread::spawn(move || match fspace::decode(&g) {
+                Ok(Ok(m)) => format!("{m:?}"),
+                Ok(Err(e)) => format!("Err({e})"),
+                Err(p) => format!("panic({p})"),
+            })
+            .join()
+            .unwrap_or_else(|_| "thread panicked".to_string())
+        };
+        let pairs = std::sync::atomic::AtomicU64::new(0);
+        par_items(ctx.threads, bases.len(), |bi| {
+            let a = &bases[bi];
+            let ref_a = fresh(a);
+            let es = a[0] >> 3 == 17 || a[0] >> 3 == 18;
+            for bit in 0..a.len() * 8 {
+                let mut b = a.clone();
+                b[bit / 8] ^= 0x80 >> (bit % 8);
+                if es && bit < 88 {
+                    seal(&mut b, 0); // keep extended squitters acceptable
+                }
+                let ref_b = fresh(&b);
+                // a then b
+                let _ = render(a);
+                let got_b = render(&b);
+                // b then a
+                let _ = render(&b);
+                let got_a = render(a);
+                pairs.fetch_add(2, std::sync::atomic::Ordering::Relaxed);
+                for (f, got, want, before) in [(&b, &got_b, &ref_b, a), (a, &got_a, &ref_a, &b)] {
+                    if got != want {
+                        rep.violation("order-dependent", format!("decoding {} right after {} gives a different result than decoding it first", hexs(f), hexs(before)), json!({"frame": hexs(f), "after": hexs(before), "group": "sequence"}));
+                    }
+                }
+            }
+        });
+        let p = pairs.load(std::sync::atomic::Ordering::Relaxed);
+        n += 3 * p;
+        rep.part("two-decode sequences over single-bit neighbours", p, json!({"base_frames": bases.len()}));
+    }
     let c = fspace::sweep(ctx, rep, &v, true);
     let frames = c.frames.load(std::sync::atomic::Ordering::Relaxed);
     let accepted = c.accepted.load(std::sync::atomic::Ordering::Relaxed);
@@ -219,6 +327,15 @@ pub fn replay(w: &Value, rep: &Report) {
         mb.copy_from_slice(&v[..7]);
         let r = fspace::call_register(name, &mb);
         V { rep, outcomes: Mutex::new(BTreeMap::new()) }.register(name, &mb, &r);
+    } else if let Some(before) = w.get("after").and_then(|x| x.as_str()) {
+        let (a, f) = (unhex(before), unhex(w["frame"].as_str().unwrap_or("")));
+        let g = f.clone();
+        let want = std::thread::spawn(move || format!("{:?}", fspace::decode(&g))).join().unwrap_or_default();
+        let _ = fspace::decode(&a);
+        let got = format!("{:?}", fspace::decode(&f));
+        if got != want {
+            rep.violation("order-dependent", format!("decoding {} right after {} gives a different result than decoding it first", hexs(&f), hexs(&a)), w.clone());
+        }
     } else {
         let f = unhex(w["frame"].as_str().unwrap_or(""));
         let r = fspace::decode(&f);
